@@ -5,9 +5,10 @@
    config cases with declared axis values and two tests whose name components coincide are the
    same case (all ten fields) and bear the same test name — i.e. the components spell every axis
    the suite leaves open, and nothing the suite fixes is lost by leaving it out.
-   (The step from components to the joined string needs names whose components contain no
-   "/", "." or ".."; that hygiene lemma about path.Join is not proved here — uniqueness of the
-   joined names in every library that is built is `names_unique`, unconditionally.) *)
+   (The step from components to the joined string - path.Join is injective on well-formed
+   segments - is C07_Join.v; the full statement, across suites, is full_name_injective in
+   C07_Unique.v; uniqueness of the joined names in every library that is built is
+   `names_unique`, unconditionally.) *)
 From Coq Require Import Lia.
 From V Require Import C07_Model C07_Spec C07_Proofs.
 Open Scope N_scope.
